@@ -224,8 +224,10 @@ func w4Run(t *testing.T, r *verifsim.Run) {
 	r.Config["clock_mode"], r.Config["map_share"], r.Config["restarts"] = clockMode, mapShare, restarts
 	w.now = time.Unix(1_700_000_000+int64(c.Intn(5000, "t0")), 0)
 	w.names = [5][]string{
-		format.MetricEvent:       {"m0", "m1", "m2", "ns0:m0", "ns0:m1", "ns1:m0"},
-		format.DashboardEvent:    {"d0", "d1"},
+		// "ns0"/"ns1" as names of metrics and dashboards: an entity of another type named like a namespace
+		// is not that namespace
+		format.MetricEvent:       {"m0", "m1", "m2", "ns0:m0", "ns0:m1", "ns1:m0", "ns1"},
+		format.DashboardEvent:    {"d0", "d1", "ns0"},
 		format.MetricsGroupEvent: {"g0_", "g1_", "ns0:g_"},
 		format.PromConfigEvent:   {"prom"},
 		format.NamespaceEvent:    {"ns0", "ns1"},
